@@ -360,11 +360,9 @@ def run(pid, tier, seed, rundir, model_run):
                             changed = sorted(set(before) ^ set(after)) + sorted(k for k in before if k in after and before[k] != after[k])
                             key = "bisync-dry-run-wrote-archive" if any("/.copia/" in c for c in changed) else "bisync-dry-run-changed-a-tree"
                             res["violations"].append((key, f"bisync --dry-run changed {changed[:4]}", rep))
-                        printed = []
-                        for ln in out.split("\n"):
-                            mm_ = re.match(r"^(\S+)\s+(.*)$", ln)
-                            if mm_ and not ln.startswith("(dry run)"):
-                                printed.append(f"{hexs(mm_.group(2))}:{mm_.group(1)}")
+                        # names may contain newlines, so the printed plan is not parsed line by line: the model's plan is
+                        # rendered the way bidir.rs prints it (`{:<22} {}` per entry) and the whole stdout is compared
+                        printed = [out]
                         da, db = BB.digests(ta), BB.digests(tb)
                         arch_tok = "none" if trusted is None else BB.tree_tok(trusted)
                         bi_ops.append(f"biplan {BB.tree_tok(da)} {BB.tree_tok(db)} {arch_tok}")
@@ -384,10 +382,16 @@ def run(pid, tier, seed, rundir, model_run):
     model = model_run(os.path.join(rundir, "ops.txt"))
     ndis = 0
     res["disagreements"] = []
+    def render_plan(mo):
+        lines = []
+        for ent in ([] if mo in ("-", "", None) else mo.split(";")):
+            hp, act = ent.split(":", 1)
+            lines.append(f"{act:<22} {bytes.fromhex(hp).decode('utf-8', 'surrogateescape')}\n")
+        return "".join(lines) + "(dry run) nothing was modified\n"
     for q, im, mo, rep in zip(bi_ops, bi_impl, model[len(ops):], bi_reps):
-        if im != mo:
+        if mo is None or im != render_plan(mo):
             ndis += 1
-            res["violations"].append(("bisync-dry-run-prints-ne-plan", f"bisync --dry-run printed {im[:200]} but the plan a real run performs from this state is {mo[:200]}", dict(rep, query=q[:800])))
+            res["violations"].append(("bisync-dry-run-prints-ne-plan", f"bisync --dry-run printed {im[:200]!r} but the plan a real run performs from this state is {(mo or '')[:200]}", dict(rep, query=q[:800])))
     model = model[:len(ops)]
     for k, (q, im, mo) in enumerate(zip(ops, impl, model)):
         mm = re.match(r"dest=(\S+) T:(\S+)\|S:(\d+)\|D:(\S+) ran=(\d)", mo or "")
